@@ -14,7 +14,8 @@ AUTH_FAULTS = [
     "A.origin-unbalanced-bracket", "A.origin-fullwidth-solidus",
     "A.origin-other-but-toporigin-expected", "A.origin-other-with-lone-surrogate", "A.type-other-with-lone-surrogate",
     "A.cdj-undecodable-byte-in-origin", "A.cdj-undecodable-byte-in-type", "A.rpid-hash-of-idna-form", "A.rpid-hash-of-lowercase",
-    "A.rpid-other", "A.rpid-uppercase", "A.up-clear", "A.uv-clear-required",
+    "A.rpid-other", "A.rpid-uppercase", "A.rpid-hash-of-origin", "A.rpid-hash-of-host-with-scheme-slashes",
+    "A.origin-explicit-default-port", "A.expected-origin-explicit-default-port", "A.up-clear", "A.uv-clear-required",
     "A.id-other-credential", "A.id-padded", "A.id-std-alphabet", "A.cred-type",
     "A.sig-other-key", "A.sig-authdata-only", "A.sig-unhashed-cdj", "A.sig-other-hash",
     "A.key-declares-other-alg", "A.tb-not-supported", "A.ctr-equal", "A.ctr-smaller", "A.ctr-zero-vs-pos",
@@ -89,6 +90,12 @@ def build_assertion(cred, *, rp_id="example.com", challenge=b"\x01" * 32, origin
         cd_origin = cd_origin + "/"
     if "A.origin-scheme" in faults:
         cd_origin = cd_origin.replace("https://", "http://")
+    # the same web origin to a browser, another string to compare: the scheme's default port written out
+    if "A.origin-explicit-default-port" in faults:
+        cd_origin = cd_origin + (":443" if cd_origin.startswith("https://") else ":80")
+    if "A.expected-origin-explicit-default-port" in faults:
+        dp = lambda o: o + (":443" if o.startswith("https://") else ":80")
+        expected_origin = dp(origin) if origin_list is None else [dp(o) for o in origin_list]
     if "A.origin-proper-prefix" in faults:
         cd_origin = origin[:-1]
     if "A.origin-infix" in faults:
@@ -122,6 +129,11 @@ def build_assertion(cred, *, rp_id="example.com", challenge=b"\x01" * 32, origin
         ad_rp = rp_id.lower()
     if "A.rpid-other" in faults:
         ad_rp = "other.example"
+    # the hash of a *related* string: the origin the client reports (a U2F AppID), or "//" + the RP ID
+    if "A.rpid-hash-of-origin" in faults:
+        ad_rp = cd_origin
+    if "A.rpid-hash-of-host-with-scheme-slashes" in faults:
+        ad_rp = "//" + ad_rp
     if "A.rpid-uppercase" in faults:
         ad_rp = ad_rp.upper()
     if "A.up-clear" in faults:
